@@ -18,9 +18,6 @@ READ_ONLY_OK = {"get", "exists", "oid_to_path", "path_to_oid", "oids_exist", "li
 
 
 def check(ck: Checker) -> None:
-    from . import round4 as _r4
-
-    _r4.index_memo_reset(ck, "C11.new")
     prog, res = ck.prog, ck.res
     ck.decided = [
         "C11.result: transfer() returns (X - F, F) with F the move routine's result and X the very set it was asked to move, X being compare_status(...).new; early exits return two empty sets",
@@ -190,6 +187,10 @@ def check(ck: Checker) -> None:
 
     # ------------------------------------------------------------------ new
     _check_compare_status(ck)
+    from . import round4 as _r4
+
+    _r4.index_memo_reset(ck, "C11.new")
+
 
 
 def _check_compare_status(ck: Checker) -> None:
